@@ -88,7 +88,7 @@ theorem dry_processMessage_eqG (env : PEnv) (orc : EvalOracles) (expr : Expr) (h
 
 /-- `walk` with the processing of one message as a parameter. -/
 def dry_walkG (pm : Maildir → Bytes → MainSt → Prog (MainSt × Maildir)) : Nat → Maildir → MainSt → Prog (MainSt × Maildir)
-  | 0, md, st => .ret (st, md)
+  | 0, md, st => .ret ({ st with fuelOut := true }, md)
   | fuel + 1, md, st =>
     match md.dirH with
     | none => .ret (st, md)
